@@ -32,6 +32,26 @@ CHECKS = {
     text="Corpus: every matching (document, path) case TLC emits from MC_Query (general documents with an anchored scalar and aliases, one- and two-segment paths), a configuration whose map keys and set members are drawn from the escapable punctuation (. / [ ] ( ) ' \" space ^ $ % and combinations), and the keyword collections of MC_Keywords. On every real, non-virtual result the four relations of the statement are evaluated on the real objects: parent[parentref] is the node, the ancestry chain walks from the root to it, str(result.path) in dot and slash notation re-resolves to exactly that node (once per alias place when named by anchor), and a second evaluation reports equal coordinates.",
     note="Trusted: TLC (enumeration, expected positions); object identity in the loaded ruamel graph. The relations need no oracle; the specification supplies the corpus and which queries match. Bounds as C01 plus 17 punctuation keys / 3 punctuation set members on documents of <= 3 (thorough 4) nodes.",
     technique="TLC-enumerated corpus (TLA+ generator + selection model) replayed; relations checked on real NodeCoords", ref="4/C02"),
+ "C03": dict(
+    text="spec/YEdit.tla is the plain-data model of set/create/delete (SetScalars with alias closure, DeleteNodes, CreatePath) written as a step function EStep; MC_Edit builds initial documents with the generator machine plus curated ones (repeated equal scalars, values spelled like keys, anchored scalars aliased under keys and inside other sequences) and explores all histories of set / creating set / delete up to the depth bound, checking frame, alias-closure and anchor well-formedness properties on every step (TLC action properties). Every history ending in a set is replayed on ONE Processor; the whole abstract document (values, key order, element order, anchors, aliases) is compared with the model and the document is dumped and re-loaded with yamlpath's strict loader.",
+    note="Trusted: TLC; YEdit as the plain-data model; the abstraction of harness/absdoc.py. New values: int and str under the DEFAULT format. Paths selecting containers or touching rules the documentation leaves open are skipped by the model. Bounds: quick = depth 2 over ~170 initial documents (~24k histories); thorough = depth 3.",
+    technique="TLA+ edit step machine, histories explored by TLC with frame action properties + S->C history replay", ref="4/C03"),
+ "C04": dict(
+    text="Same model and exploration as C03 (spec/YEdit.tla DeleteNodes: exactly the matched subtrees disappear, order kept; root deletion refused with the document unchanged); every MC_Edit history ending in a delete - many matches per sequence, nested matches, empty list/map targets, negative indexes, slices, wildcards, searches, matches reached twice through ** - is replayed on one Processor and the whole document compared, then dumped and re-loaded.",
+    note="As C03. The refusal of a root deletion is compared by exception class (NoDocumentYAMLPathException) and unchanged document.",
+    technique="TLA+ edit step machine, histories explored by TLC + S->C history replay", ref="4/C04"),
+ "C09": dict(
+    text="Reads are stuttering steps of the YEdit step machine. Purity is bound by replaying every (document, path) case of the MC_Query corpora - all segment kinds, keyword segments and collector expressions with + - & - through get_nodes(mustexist=True), exists() and optional-match on existing paths, with the document snapshotted (abstract table + container identities) before and after. Creation: every MC_Edit history ending in an optional-match set with a missing straight key/index tail (prefix of any length, tail up to 3 segments, padding) is replayed and the whole document compared with CreatePath of the model, then dumped and re-loaded.",
+    note="As C01/C03. Padding defaults follow Nodes.build_next_node (modelled). One known finding: collector subtraction over Hashes edits the document (F-C09-1).",
+    technique="TLA+ edit step machine (reads = stuttering, CreatePath) + S->C replay with before/after snapshots", ref="4/C09"),
+ "C17": dict(
+    text="spec/YSave.tla models the file-system state (target, backup, output in {absent, ORIG, STALE, EMPTY, PARTIAL, NEW}) and the save protocols of yaml-set, yaml-merge and eyaml-rotate-keys as a step function with one action per I/O call in program order, at most one injected fault, and the pre-write failure causes; TLC explores it completely and checks PreWriteFailureLeavesNoTrace, OutputNeverReplaces, BackupIsPreimage, SingleFaultSafety, NoBackupWhenUnchanged; three deliberately defective variants must violate them. The real main() functions are run in a scratch directory with recording wrappers; the k-th I/O call is failed for every k and every failure cause is provoked; each recorded trace is validated by TLC (Trace_YSave folds the same step function) and the verdict is taken from bytes and directory listings. Thorough tier: real subprocess under strace with syscall fault injection.",
+    note="Trusted: TLC; the wrappers' classification of calls into roles; byte comparison with the pre-image. yaml-merge is exercised with the overwrite target equal to the first input.",
+    technique="TLA+ protocol state machine checked exhaustively by TLC + C->S trace validation with fault injection", ref="4/C17"),
+ "C19": dict(
+    text="spec/YRotate.tla models key rotation as a step machine over value cells (key, plaintext, anchor group, folded) with actions Find/Node/Decrypt/Encrypt/Store/Backup/Write/Exit; TLC checks AllNew, PlaintextKept, OncePerCell, StillShared, Frame, NoSecretNoTouch over every document shape up to the bound (and that the pinned identity-based Store violates AllNew). The real eyaml-rotate-keys main() is run on the emitted and on random documents with a deterministic stand-in eyaml executable; its call log and recording wrappers give the event trace validated by TLC (Trace_YRotate); the rewritten file is decrypted under new and old keys per position, sharing and the non-secret frame are compared, and a file without secrets must be untouched.",
+    note="Trusted: TLC; the stand-in cipher; absdoc abstraction for the frame.",
+    technique="TLA+ rotation state machine checked by TLC + C->S trace validation of the external-command protocol", ref="4/C19"),
 }
 NA_REASON = "check not built yet in this round (specification family under construction; see DESIGN.md section 9)"
 def main():
